@@ -118,6 +118,8 @@ func (m *model) walk(us []fx.EUse) {
 			m.evs = append(m.evs, event{Kind: "call", Cap: capOf(u.A, u.N, u.S)})
 		case "on-attr":
 			m.evs = append(m.evs, event{Kind: "elem", Tag: "button", Handlers: [][]any{capOf(u.A, u.N, u.S)}})
+		case "on-attr-void":
+			m.evs = append(m.evs, event{Kind: "elem", Tag: "input", Handlers: [][]any{capOf(u.A, u.N, u.S)}})
 		case "on-attr2":
 			m.evs = append(m.evs, event{Kind: "elem", Tag: "button", Handlers: [][]any{capOf(u.A, u.N, u.S), capOf(u.B, u.N, u.S)}})
 		case "class-direct", "class-func":
@@ -249,7 +251,7 @@ func judge(out []byte, want []event, registered map[string]bool) error {
 					return fmt.Errorf("css class %s is registered with the middleware but was inlined", sel)
 				}
 			}
-		case t.Type == "start" && (t.Name == "button" || t.Name == "div" || t.Name == "a"):
+		case (t.Type == "start" || t.Type == "selfclosing") && (t.Name == "button" || t.Name == "div" || t.Name == "a" || t.Name == "input"):
 			e, err := next("elem")
 			if err != nil {
 				return err
@@ -450,7 +452,7 @@ func init() {
 
 // ---------- generators ----------
 
-var kinds = []string{"script-call", "on-attr", "on-attr2", "class-direct", "class-kv", "class-classes", "class-slice", "class-cssclasses", "class-func", "class-mixed",
+var kinds = []string{"script-call", "on-attr", "on-attr2", "on-attr-void", "class-direct", "class-kv", "class-classes", "class-slice", "class-cssclasses", "class-func", "class-mixed",
 	"once-block", "once-block", "once-fixed", "wrap", "jsfunc-call", "jsfunc-attr"}
 
 func genUses(depth, max int) *rapid.Generator[[]fx.EUse] {
@@ -473,7 +475,7 @@ func genUses(depth, max int) *rapid.Generator[[]fx.EUse] {
 func useKeys(us []fx.EUse, add func(thing, kind string)) {
 	for _, u := range us {
 		switch {
-		case u.Kind == "script-call" || u.Kind == "on-attr":
+		case u.Kind == "script-call" || u.Kind == "on-attr" || u.Kind == "on-attr-void":
 			add(fmt.Sprintf("s%d", u.A%3), u.Kind)
 		case u.Kind == "on-attr2":
 			add(fmt.Sprintf("s%d", u.A%3), u.Kind)
